@@ -1,6 +1,7 @@
 (* Syntax/WfComplete.v — the fragment of RoundTripNest.v is COMPLETE: every tree that is well-formed
-   (Render.wf_resource), whose strings are UTF-8 (WfUtf8.wf_utf8_resource) and whose comments do not end in an
-   empty or whitespace-only line (finding D7) lies in RoundTripNest.nest_resource d for some depth d.
+   (Render.wf_resource) and whose strings are UTF-8 (WfUtf8.wf_utf8_resource)
+   lies in RoundTripNest.nest_resource d for some depth d; C02 then holds for it unless it has the shape of finding D7
+   (the last entry is a stand-alone comment whose last line is empty: RoundTrip.last_comment_ok).
      1. the lines of a UTF-8 text start with a character
      2. a well-formed pattern (Render.wf_value) is a pattern of RoundTripML.ml_pattern
      3. every well-formed expression has a depth
@@ -490,20 +491,10 @@ Qed.
 (* ---------------------------------------------------------------------------------------------- *)
 (* 4. Entries and resources                                                                         *)
 
-(* the last line of the comment contains a byte other than a space (finding D7) *)
-Definition comment_end_ok (c : comment) : bool := existsb (fun b => negb (N.eqb b 32)) (last (content c) []).
-Definition entry_comments_end_ok (e : entry) : bool :=
-  match e with
-  | Message _ _ _ (Some c) | Term _ _ _ (Some c) => comment_end_ok c
-  | CommentEntry c | GroupComment c | ResourceComment c => comment_end_ok c
-  | _ => true
-  end.
-Definition comments_end_ok (t : resource) : bool := forallb entry_comments_end_ok t.
-
-Lemma wf_simple_comment c : wf_comment c = true -> utf8_comment c = true -> comment_end_ok c = true -> simple_comment c = true.
+Lemma wf_wide_comment c : wf_comment c = true -> utf8_comment c = true -> wide_comment c = true.
 Proof.
-  unfold wf_comment, utf8_comment, comment_end_ok, simple_comment. destruct (content c) as [|l ls]; [discriminate|].
-  cbn [negb andb]. intros Hw Hu He. rewrite He, andb_true_r.
+  unfold wf_comment, utf8_comment, wide_comment. destruct (content c) as [|l ls]; [discriminate|].
+  cbn [negb andb]. intros Hw Hu.
   rewrite forallb_forall in *. intros x Hx. unfold simple_comment_line. rewrite (Hw x Hx), (utf8_starts_char x (Hu x Hx)). reflexivity.
 Qed.
 
@@ -548,47 +539,45 @@ Proof.
 Qed.
 
 Lemma opt_comment_ok c : match c with Some cm => wf_comment cm | None => true end = true -> utf8_opt_comment c = true ->
-  match c with Some cm => comment_end_ok cm | None => true end = true ->
-  match c with Some cm => simple_comment cm | None => true end = true.
-Proof. destruct c as [cm|]; [apply wf_simple_comment | reflexivity]. Qed.
+  match c with Some cm => wide_comment cm | None => true end = true.
+Proof. destruct c as [cm|]; [apply wf_wide_comment | reflexivity]. Qed.
 
-Theorem wf_entry_nest e : wf_entry e = true -> utf8_entry e = true -> entry_comments_end_ok e = true ->
-  exists d, ml_entry (eokn d) e = true.
+Theorem wf_entry_nest e : wf_entry e = true -> utf8_entry e = true -> exists d, ml_entry (eokn d) e = true.
 Proof.
-  intros Hw Hu Hc. unfold ml_entry.
-  destruct e as [id [p|] attrs c | id p attrs c | c | c | c | j]; cbn [wf_entry utf8_entry entry_comments_end_ok strip_comment entry_comment ml_plain_entry] in *.
+  intros Hw Hu. unfold ml_entry.
+  destruct e as [id [p|] attrs c | id p attrs c | c | c | c | j]; cbn [wf_entry utf8_entry strip_comment entry_comment ml_plain_entry] in *.
   - apply andb_prop in Hw as [Hw Hwc]. apply andb_prop in Hw as [Hw Hwa]. apply andb_prop in Hw as [Hid Hwp].
     apply andb_prop in Hu as [Hu Huc]. apply andb_prop in Hu as [Hu Hua]. apply andb_prop in Hu as [_ Hup].
     destruct (wf_value_ml p Hwp Hup) as [d1 Hd1]. destruct (wf_attributes_ml attrs Hwa Hua) as [d2 Hd2].
     exists (Nat.max d1 d2). rewrite Hid, (ml_pattern_le d1 _ p (Nat.le_max_l d1 d2) Hd1), (attrs_le d2 _ attrs (Nat.le_max_r d1 d2) Hd2).
-    cbn [andb]. apply (opt_comment_ok c Hwc Huc). destruct c; exact Hc.
+    cbn [andb]. apply (opt_comment_ok c Hwc Huc).
   - apply andb_prop in Hw as [Hw Hwc]. apply andb_prop in Hw as [Hw Hwa]. apply andb_prop in Hw as [Hid Hne].
     apply andb_prop in Hu as [Hu Huc]. apply andb_prop in Hu as [_ Hua].
     destruct (wf_attributes_ml attrs Hwa Hua) as [d2 Hd2].
-    exists d2. rewrite Hid, Hne, Hd2. cbn [andb]. apply (opt_comment_ok c Hwc Huc). destruct c; exact Hc.
+    exists d2. rewrite Hid, Hne, Hd2. cbn [andb]. apply (opt_comment_ok c Hwc Huc).
   - apply andb_prop in Hw as [Hw Hwc]. apply andb_prop in Hw as [Hw Hwa]. apply andb_prop in Hw as [Hid Hwp].
     apply andb_prop in Hu as [Hu Huc]. apply andb_prop in Hu as [Hu Hua]. apply andb_prop in Hu as [_ Hup].
     destruct (wf_value_ml p Hwp Hup) as [d1 Hd1]. destruct (wf_attributes_ml attrs Hwa Hua) as [d2 Hd2].
     exists (Nat.max d1 d2). rewrite Hid, (ml_pattern_le d1 _ p (Nat.le_max_l d1 d2) Hd1), (attrs_le d2 _ attrs (Nat.le_max_r d1 d2) Hd2).
-    cbn [andb]. apply (opt_comment_ok c Hwc Huc). destruct c; exact Hc.
-  - exists 0. rewrite (wf_simple_comment c Hw Hu Hc). reflexivity.
-  - exists 0. rewrite (wf_simple_comment c Hw Hu Hc). reflexivity.
-  - exists 0. rewrite (wf_simple_comment c Hw Hu Hc). reflexivity.
+    cbn [andb]. apply (opt_comment_ok c Hwc Huc).
+  - exists 0. rewrite (wf_wide_comment c Hw Hu). reflexivity.
+  - exists 0. rewrite (wf_wide_comment c Hw Hu). reflexivity.
+  - exists 0. rewrite (wf_wide_comment c Hw Hu). reflexivity.
   - discriminate Hw.
 Qed.
 
-(* the fragment is complete up to finding D7 *)
-Theorem wf_resource_nest t : wf_resource t = true -> wf_utf8_resource t = true -> comments_end_ok t = true ->
-  exists d, nest_resource d t = true.
+(* the fragments are complete: every well-formed UTF-8 tree lies in one of them *)
+Theorem wf_resource_nest t : wf_resource t = true -> wf_utf8_resource t = true -> exists d, nest_resource d t = true.
 Proof.
-  unfold wf_resource, wf_utf8_resource, comments_end_ok, nest_resource, ml_resource. intros Hw Hu Hc.
+  unfold wf_resource, wf_utf8_resource, nest_resource, ml_resource. intros Hw Hu.
   assert (H : Forall (fun e => exists d, ml_entry (eokn d) e = true) t).
-  { rewrite forallb_forall in Hw, Hu, Hc. apply Forall_forall. intros e He. apply (wf_entry_nest e (Hw e He) (Hu e He) (Hc e He)). }
+  { rewrite forallb_forall in Hw, Hu. apply Forall_forall. intros e He. apply (wf_entry_nest e (Hw e He) (Hu e He)). }
   destruct (forall_max (fun d e => ml_entry (eokn d) e = true) t ml_entry_le H) as [d Hd].
   exists d. apply forallb_forall. rewrite Forall_forall in Hd. exact Hd.
 Qed.
 
-(* ... and conversely the fragment lies inside (RoundTripNest.nest_resource_wf, and the comments) *)
-Theorem parse_render_wf cs t : wf_resource t = true -> wf_utf8_resource t = true -> comments_end_ok t = true ->
+(* C02 for every well-formed tree but the shape of finding D7: if the LAST entry is a stand-alone comment, its last
+   line is not empty (RoundTrip.last_comment_ok) *)
+Theorem parse_render_wf cs t : wf_resource t = true -> wf_utf8_resource t = true -> last_comment_ok t = true ->
   exists t', parse (render cs t) = Done (t', []) /\ map join_entry t' = t.
-Proof. intros Hw Hu Hc. destruct (wf_resource_nest t Hw Hu Hc) as [d Hd]. apply (parse_render_nest d cs t Hd). Qed.
+Proof. intros Hw Hu Hc. destruct (wf_resource_nest t Hw Hu) as [d Hd]. apply (parse_render_nest d cs t Hd Hc). Qed.
